@@ -213,4 +213,49 @@ example : ∃ s, run init [.serve 1, .subCheck 1 7 1 true, .subLock 1, .subSigna
     s.phase = .stopped ∧ s.wq = none ∧ s.workers = [.exited] ∧ s.started = [(7, 1)] := by
   refine ⟨_, rfl, ?_⟩; decide
 
+
+/-! ## the lifecycle state machine, read off the source
+
+`Generated.stateOps` (rewritten from /repo on every run) lists every `sync/atomic` operation on
+`Service.state`.  The lifecycle is stopped → starting → started → stopping → stopped, and each move
+has one owner: the two transitions that several goroutines may attempt at once (entering `starting`,
+entering `stopping`) are compare-and-swap from exactly the state before, so at most one caller wins
+and a loser changes nothing ("refused as not stopped / not started"); the other two are plain stores
+made by the winner of the preceding compare-and-swap (`serve` publishes `started`; `Shutdown`
+publishes `stopped`; a `Serve` that fails before anything was started gives `stopped` back).  Every
+other function only loads the state.  A `Swap`, an `Add`, a store from another function, or a
+compare-and-swap between other values is not in the table. -/
+
+def stateOpOk (o : String × String × String) : Bool :=
+  let (fn, op, args) := o
+  if op == "LoadInt32" then true
+  else if op == "CompareAndSwapInt32" then
+    ((fn == "Service.Serve" || fn == "Service.ListenAndServe") && args == "stateStopped,stateStarting") ||
+    (fn == "Service.Shutdown" && args == "stateStarted,stateStopping")
+  else if op == "StoreInt32" then
+    (fn == "Service.serve" && (args == "stateStarted" || args == "stateStopped")) ||
+    (fn == "Service.ListenAndServe" && args == "stateStopped") ||
+    (fn == "Service.Shutdown" && args == "stateStopped")
+  else false
+
+/-- the first operation of `fn` on the state -/
+def firstStateOp (fn : String) : Option (String × String) :=
+  (Generated.stateOps.find? (·.1 == fn)).map (·.2)
+
+theorem lifecycle_state_machine :
+    Generated.stateOps.all stateOpOk = true ∧
+    firstStateOp "Service.Serve" = some ("CompareAndSwapInt32", "stateStopped,stateStarting") ∧
+    firstStateOp "Service.ListenAndServe" = some ("CompareAndSwapInt32", "stateStopped,stateStarting") ∧
+    firstStateOp "Service.Shutdown" = some ("CompareAndSwapInt32", "stateStarted,stateStopping") ∧
+    -- the functions that act on a running service look at the state (and only look)
+    (["Service.runWith", "Service.Reset", "Service.ResetAll", "Service.TokenEvent", "Service.TokenEventWithID", "Service.TokenReset"].all
+      fun fn => firstStateOp fn == some ("LoadInt32", "")) = true := by
+  decide +kernel
+
+/-- the model's side of the same machine: `Serve` is enabled in the stopped phase only and
+`Shutdown` in the started phase only; a refused call leaves the state as it was (there is no step) -/
+theorem serve_and_shutdown_refused_elsewhere (s : St) (n : Nat) :
+    (s.phase ≠ .stopped → step s (.serve n) = none) ∧ (s.phase ≠ .started → step s .shutdownCas = none) := by
+  constructor <;> intro h <;> simp [step, h]
+
 end GoRes.Props.C03
